@@ -171,29 +171,6 @@ theorem C14_histogram_bucket (interval offset v p : Int) (hI : 0 < interval) :
     have a2 : (v - offset) / interval < p + 1 := (Int.ediv_lt_iff_lt_mul hI).2 (by omega)
     omega
 
-theorem range_split (cuts : List Int) (hs : cuts.Pairwise (· < ·)) (v : Int) :
-    cuts.take (rangeIdx cuts v) = cuts.filter (· ≤ v) ∧ ∀ c ∈ cuts.drop (rangeIdx cuts v), v < c := by
-  induction cuts with
-  | nil => simp [rangeIdx]
-  | cons c cs ih =>
-    obtain ⟨hc, hcs⟩ := List.pairwise_cons.1 hs
-    obtain ⟨ih1, ih2⟩ := ih hcs
-    by_cases h : c ≤ v
-    · have : rangeIdx (c :: cs) v = rangeIdx cs v + 1 := by simp [rangeIdx, h]
-      rw [this]
-      simp only [List.take_succ_cons, List.drop_succ_cons, List.filter_cons, h, decide_true, if_true]
-      exact ⟨by rw [ih1], ih2⟩
-    · have hnil : cs.filter (· ≤ v) = [] := by
-        rw [List.filter_eq_nil_iff]; intro a ha; have := hc a ha; simp; omega
-      have : rangeIdx (c :: cs) v = 0 := by simp [rangeIdx, h, hnil]
-      rw [this]
-      simp only [List.take_zero, List.drop_zero, List.filter_cons, h, decide_false]
-      refine ⟨by simp [hnil], ?_⟩
-      intro a ha
-      rcases List.mem_cons.1 ha with rfl | ha
-      · omega
-      · have := hc a ha; omega
-
 /-- every value lands in exactly one range bucket: for sorted cut points `rangeIdx` is the
 unique index `i` such that the cuts before `i` are `≤ v` and those from `i` on are `> v`, i.e.
 `cuts[i-1] ≤ v < cuts[i]` with open ends -/
